@@ -985,6 +985,17 @@ func c20equal(c *Ctx, m *c20m, run func(string) (*oStruct, string), pos token.Po
 		c.Unk("C20.R5", "proj.(*SR).Equal#model", pos, "the reference text is not interpretable")
 		return
 	}
+	// a == b on two generic values is decided as EqualWithinULP is: the same term (and not the
+	// unset marker) is the same number, two different terms are two different numbers
+	savedOracle := m.it.cmpOracle
+	defer func() { m.it.cmpOracle = savedOracle }()
+	m.it.cmpOracle = func(op token.Token, a, b poly) (bool, bool) {
+		if op != token.EQL && op != token.NEQ {
+			return false, false
+		}
+		same := a.equal(b) && !polyHasNaN(a) && !polyHasNaN(b)
+		return same == (op == token.EQL), true
+	}
 	call := func(a, b *oStruct) (bool, string) {
 		c.Evals(1)
 		m.h.problems = map[string][]string{}
